@@ -14,8 +14,9 @@ from common import sexp, parse_sexp
 import c19_types as T
 import c19_gen as G
 import c19_real as R
+import c19_why as WHY
 
-MODEL_FILES = ['MaltModel/Analysis/TypeInf.lean', 'MaltModel/Analysis/TypeInfSem.lean', 'MaltModel/Proofs/C19.lean',
+MODEL_FILES = ['MaltModel/Analysis/TypeInf.lean', 'MaltModel/Analysis/TypeInfSem.lean', 'MaltModel/Proofs/C19.lean', 'MaltModel/Proofs/C19Least.lean',
                'MaltModel/Proofs/C19Cex.lean', 'MaltModel/Drv/C19.lean']
 KNOWN_CLASSES = R.CLASS_ORDER
 
@@ -28,6 +29,7 @@ def namespace():
     ns = {}
     exec(G.PRELUDE, ns)
     T.register_class(ns['ext_cm'])
+    T.register_class(ns['ext_box'])
     return ns
 
 
@@ -87,7 +89,7 @@ def oracle(run, prog, an, tlog, clog, taint):
                      {'program': prog.source, 'inputs': [list(i) for i in prog.inputs], 'arg_types': {k[1]: sorted(v) for k, v in prog.arg_types.items()},
                       'node_id': sid, 'expr': ast.unparse(node) if not isinstance(node, ast.arg) else node.arg,
                       'line': getattr(node, 'lineno', None), 'inferred': sorted(map(repr, Tset)), 'runtime': [repr(b) for b in bad],
-                      'tainted_by': sorted(classes), 'key': prog.key}, cls)
+                      'tainted_by': sorted(classes), 'key': prog.key, 'in_function': fi.def_id if fi is not None else None}, cls)
     for (dsid, name), seen in sorted(clog.items()):
         Tset = an.closure_anno.get(dsid, {}).get(name)
         if Tset is None:
@@ -102,7 +104,7 @@ def oracle(run, prog, an, tlog, clog, taint):
             run.fail('CLOSURE_TYPES do not cover the type of a captured variable at a call',
                      {'program': prog.source, 'inputs': [list(i) for i in prog.inputs], 'function': fi.fdef.name, 'name': name,
                       'inferred': sorted(map(repr, Tset)), 'runtime': [repr(b) for b in bad], 'tainted_by': sorted(classes),
-                      'key': prog.key}, cls)
+                      'key': prog.key, 'in_function': fi.def_id}, cls)
     return st
 
 
@@ -164,6 +166,7 @@ def lean_jobs(items):
             if fi.diverged and fi.an._unbounded:
                 continue          # ever-deeper product types: nothing finite to send
             jobs.append({'prog': prog, 'an': an, 'fi': fi, 'extra': {}, 'S': sorted(taint.get(fi.def_id, {})),
+                         'inter': WHY.inter_classes(an, taint, fi),
                          'W': sorted(wsets.get(fi.def_id, ())), 'seeds': getattr(an, 'taint_seeds', {}).get(fi.def_id, [])})
     return jobs
 
@@ -306,8 +309,13 @@ def checkers(run, jobs, stats, bad):
     run.evaluations += n
 
 
-def lean_chunk(run, items, stats, dis, bad):
+def lean_chunk(run, items, stats, dis, bad, whyd=None, proved=None):
     jobs = lean_jobs(items)
+    if whyd is not None:
+        wj = [{'an': j['an'], 'fi': j['fi'], 'W': j['W'], 'inter': j['inter'], 'key': (j['prog'].key, j['fi'].def_id)} for j in jobs
+              if j['an'].diverged is None]
+        before = whyd.n
+        WHY.drive_why(run, wj, whyd, proved)
     rounds = drive_with_misses(run, jobs, _analyze_line, 'res')
     stats['replay_rounds_max'] = max(stats.get('replay_rounds_max', 0), rounds)
     correspondence(run, jobs, stats, dis)
@@ -363,9 +371,11 @@ def check(run, only=None):
     sizes = {'cfg_nodes': [], 'functions': []}
     by_profile = {}
 
+    whyd, proved = WHY.Dist(), set()
+
     def flush():
         if items and run.driver_ok:
-            lean_chunk(run, items, stats, dis, bad)
+            lean_chunk(run, items, stats, dis, bad, whyd, proved)
         del items[:]
 
     def record(prog, r):
@@ -413,6 +423,15 @@ def check(run, only=None):
         run.oblige('checker:closCovers(real CLOSURE_TYPES)', 'checker', not bad['cover'], json.dumps(bad['cover'][:2]))
         run.oblige('checker:taintClosed(class predicate = theorem hypothesis)', 'checker', not bad['taint'], json.dumps(bad['taint'][:2]))
         run.oblige('checker:leastTaint(class predicate excuses nothing more)', 'checker', not bad['least'], json.dumps(bad['least'][:2]))
+        # theorem and classifier partition the inputs: a function inside the fully proved fragment (every node modelled,
+        # empty taint set, analysis converged) has no failing input of ANY class, known or not
+        inside = [f for f in run.failing if (f['case'].get('key'), f['case'].get('in_function')) in proved]
+        run.oblige('model:proved-fragment-has-no-finding-class', 'model', not inside,
+                   json.dumps([{'class': f['cls'], 'what': f['what'], 'program': f['case'].get('program')} for f in inside[:2]]))
+        run.cov['why_outside_the_theorem:generated_corpus'] = whyd.summary()
+        if only is None:
+            rd = WHY.repo_distribution(run)
+            run.cov['why_outside_the_theorem:repo_functions'] = rd.summary()
     else:
         run.oblige('correspondence:c19', 'correspondence', False, 'driver unavailable')
     by_cls = {}
